@@ -43,38 +43,39 @@ def level1_direct(rep):
     fn = describe(FW.getBH_level1)
     rep.function(fn)
 
-    def body():
-        Ctx.cur.pc.append(N >= 1)
-        return f(field_func=field_func, field="B", position=Arr(N, lambda i: Pf(i), "vec"),
-                 orientation=SRot(Arr(N, lambda i: Rf(i), "quat")), observers=Arr(N, lambda i: Of(i), "vec"), in_out="auto")
-
     n = 0
-    for ctx, (kind, res) in explore(body):
-        n += 1
-        if kind == "unsupported":
-            rep.obligation(f"getBH_level1@path{n}.path-outside-the-verified-subset", {"status": "unknown", "backend": "symex", "time_s": 0, "reason": str(res)[:200]}, fn["function"])
-            continue
-        if kind == "exc":
-            r = {"status": "refuted", "backend": "symex", "time_s": 0}
-            rep.obligation(f"getBH_level1@path{n}.no-exception", r, fn["function"])
-            fails.append((f"getBH_level1@path{n}.no-exception", repr(res)))
-            continue
-        goal = z3.And(res.length == N, z3.Implies(z3.And(0 <= k, k < N),
-                                                  res.elem(k) == act(Rf(k), F(act(inv(Rf(k)), vsub(Of(k), Pf(k)))))))
-        r = solve.discharge(ctx.pc, goal)
-        rep.obligation(f"getBH_level1@path{n}.result==R·F(R^-1(o-p))", r, fn["function"], sample=solve.sample_smt2(ctx.pc, goal))
-        if r["status"] != "discharged":
-            fails.append((f"getBH_level1@path{n}.direct-form", str(r.get("model"))[:800]))
-        for i, (pc, ax, fm, label, kd) in enumerate(ctx.oblig):
-            r = solve.discharge(pc, fm)
-            rep.obligation(f"getBH_level1@path{n}.safety{i}.{label.split(':')[0].replace(' ', '_')}", r, fn["function"], kd)
+    for FIELD in "BHJM":
+        def body():
+            Ctx.cur.pc.append(N >= 1)
+            return f(field_func=field_func, field=FIELD, position=Arr(N, lambda i: Pf(i), "vec"),
+                     orientation=SRot(Arr(N, lambda i: Rf(i), "quat")), observers=Arr(N, lambda i: Of(i), "vec"), in_out="auto")
+
+        for ctx, (kind, res) in explore(body):
+            n += 1
+            if kind == "unsupported":
+                rep.obligation(f"getBH_level1[{FIELD}]@path{n}.path-outside-the-verified-subset", {"status": "unknown", "backend": "symex", "time_s": 0, "reason": str(res)[:200]}, fn["function"])
+                continue
+            if kind == "exc":
+                r = {"status": "refuted", "backend": "symex", "time_s": 0}
+                rep.obligation(f"getBH_level1[{FIELD}]@path{n}.no-exception", r, fn["function"])
+                fails.append((f"getBH_level1[{FIELD}]@path{n}.no-exception", repr(res)))
+                continue
+            goal = z3.And(res.length == N, z3.Implies(z3.And(0 <= k, k < N),
+                                                      res.elem(k) == act(Rf(k), F(act(inv(Rf(k)), vsub(Of(k), Pf(k)))))))
+            r = solve.discharge(ctx.pc, goal)
+            rep.obligation(f"getBH_level1[{FIELD}]@path{n}.result==R·F(R^-1(o-p))", r, fn["function"], sample=solve.sample_smt2(ctx.pc, goal))
             if r["status"] != "discharged":
-                fails.append((f"getBH_level1@path{n}.safety{i}", label))
-        ok = calls and calls[-1][0] == "B" and "in_out" not in calls[-1][1]
-        r = {"status": "discharged" if ok else "refuted", "backend": "structural", "time_s": 0}
-        rep.obligation(f"getBH_level1@path{n}.field-forwarded,in_out-dropped-for-functions-without-it", r, fn["function"])
-        if not ok:
-            fails.append((f"getBH_level1@path{n}.forwarding", str(calls[-1:])))
+                fails.append((f"getBH_level1[{FIELD}]@path{n}.direct-form", str(r.get("model"))[:800]))
+            for i, (pc, ax, fm, label, kd) in enumerate(ctx.oblig):
+                r = solve.discharge(pc, fm)
+                rep.obligation(f"getBH_level1[{FIELD}]@path{n}.safety{i}.{label.split(':')[0].replace(' ', '_')}", r, fn["function"], kd)
+                if r["status"] != "discharged":
+                    fails.append((f"getBH_level1[{FIELD}]@path{n}.safety{i}", label))
+            ok = calls and calls[-1][0] == FIELD and "in_out" not in calls[-1][1]
+            r = {"status": "discharged" if ok else "refuted", "backend": "structural", "time_s": 0}
+            rep.obligation(f"getBH_level1[{FIELD}]@path{n}.field-forwarded,in_out-dropped-for-functions-without-it", r, fn["function"])
+            if not ok:
+                fails.append((f"getBH_level1[{FIELD}]@path{n}.forwarding", str(calls[-1:])))
     rep.paths += n
     # lemma: covariance from the direct form
     Q, R0 = z3.Consts("Q R0", Rot)
@@ -177,14 +178,21 @@ def native_covariance(seed):
         for s in srcs:
             s._position = rng.normal(size=(m, 3))
             s._orientation = R.from_rotvec(rng.normal(size=(m, 3)))
-        B1 = magpy.getB(srcs, obs, squeeze=False)
-        for s in srcs:
-            s._position = Q.apply(s._position) + t
-            s._orientation = Q * s._orientation
-        B2 = magpy.getB(srcs, Q.apply(obs) + t, squeeze=False)
-        exp = Q.apply(B1.reshape(-1, 3)).reshape(B1.shape)
-        if not np.allclose(B2, exp, rtol=1e-8, atol=1e-12 * np.abs(B1).max()):
-            return f"trial {trial}: getB of the moved setup is not the rotated field (max dev {np.abs(B2 - exp).max():.3e})"
+        # two observers inside the cuboid at its first pose (J, M are non-zero only there)
+        obs[:2] = srcs[0]._position[0] + srcs[0]._orientation[0].apply(rng.uniform(-0.3, 0.3, size=(2, 3)))
+        for fld in "BHJM":
+            g = getattr(magpy, "get" + fld)
+            poses = [(s._position.copy(), s._orientation) for s in srcs]
+            B1 = g(srcs, obs, squeeze=False)
+            for s in srcs:
+                s._position = Q.apply(s._position) + t
+                s._orientation = Q * s._orientation
+            B2 = g(srcs, Q.apply(obs) + t, squeeze=False)
+            for s, (p0, o0) in zip(srcs, poses):
+                s._position, s._orientation = p0, o0
+            exp = Q.apply(B1.reshape(-1, 3)).reshape(B1.shape)
+            if not np.allclose(B2, exp, rtol=1e-8, atol=1e-12 * (np.abs(B1).max() + 1e-300)):
+                return f"trial {trial}: get{fld} of the moved setup is not the rotated field (max dev {np.abs(B2 - exp).max():.3e})"
     return None
 
 
